@@ -156,7 +156,7 @@ def run_cases(rep, nd_mi, nd_gamma, incr, bins):
                               dict(kind='exception', call='generate_Gamma_and_rays', N=N, d=d, S=sname, exc=repr(e)))
     # 5. the identity itself at HIGH degree (where products like d^d d! leave the int64 range), exact Fractions on the implementation's output;
     #    observed residual of the unchanged code <= 1e-7 at these (N, d)
-    for N, d in [(1, 8), (1, 11), (1, 13), (1, 16), (2, 8), (2, 11), (2, 12)] + ([(2, 14), (3, 7)] if len(nd_gamma) > 20 else []):
+    for N, d in [(1, 8), (1, 11), (1, 13), (1, 16), (2, 8), (2, 11), (2, 12), (14, 2)] + ([(2, 14), (3, 7)] if len(nd_gamma) > 20 else []):
         rep.count('high-degree identity (N, d)', '%d,%d' % (N, d))
         rep.case(('high-degree', N, d), True, sample=dict(check='interpolation identity at high degree', N=N, d=d))
         try:
